@@ -327,6 +327,7 @@ where
     unsafe fn get_unchecked(&self, i: usize) -> Self::Item {
         let mut cur_i = i;
         let mut result: u32 = 0;
+        let mut plain = T::zero(); // the symbol itself, when not compressed
 
         let mut shift = 0;
 
@@ -337,6 +338,7 @@ where
 
             let symbol = self.bvs[level].get_unchecked(cur_i);
             result = (result << 1) | symbol as u32;
+            plain = (plain << 1) | if symbol { T::one() } else { T::zero() };
 
             let tmp = self.bvs[level].rank1_unchecked(cur_i);
 
@@ -355,7 +357,7 @@ where
 
             T::from(self.codes_decode.as_ref().unwrap()[shift][idx].1).unwrap()
         } else {
-            T::from(result).unwrap()
+            plain
         }
     }
 }
@@ -404,7 +406,11 @@ where
         }
 
         for level in 0..symbol_len {
-            let bit = ((repr >> (symbol_len - level - 1)) & 1) == 1;
+            let bit = if COMPRESSED {
+                ((repr >> (symbol_len - level - 1)) & 1) == 1
+            } else {
+                ((symbol >> (symbol_len - level - 1)) & T::one()) == T::one()
+            };
 
             let offset = self.bvs[level].n_zeros();
 
@@ -462,7 +468,11 @@ where
         for level in 0..symbol_len {
             path_off.push(b);
 
-            let bit = ((repr >> (symbol_len - level - 1)) & 1) == 1;
+            let bit = if COMPRESSED {
+                ((repr >> (symbol_len - level - 1)) & 1) == 1
+            } else {
+                ((symbol >> (symbol_len - level - 1)) & T::one()) == T::one()
+            };
 
             let rank_b = if bit {
                 self.bvs[level].rank1(b)
@@ -479,7 +489,11 @@ where
         for level in (0..symbol_len).rev() {
             b = path_off[level];
             let rank_b = rank_path_off[level];
-            let bit = ((repr >> (symbol_len - level - 1)) & 1) == 1;
+            let bit = if COMPRESSED {
+                ((repr >> (symbol_len - level - 1)) & 1) == 1
+            } else {
+                ((symbol >> (symbol_len - level - 1)) & T::one()) == T::one()
+            };
 
             result = if bit {
                 self.bvs[level].select1(rank_b + result)
